@@ -28,7 +28,9 @@ TNext ==
     /\ l <= Len(Rec)
     /\ l' = l + 1
     /\ \/ (Ev.op = "reset" /\ ResetAll)
-       \/ (Ev.op = "grow" /\ GrowOnly(Ev.n) /\ Post)
+       \/ (Ev.op = "grow" /\ GrowObserved(Ev.n, Ev.cap, Ev.head, Ev.tail)
+            /\ (IF GrowBy(cap, head, tail, mem, Ev.n)[1] = Ev.cap /\ Ev.head = 0 THEN TRUE
+                ELSE PrintT(<<"NONCONFORMING", l, Ev, "growth policy">>)))
        \/ (Ev.op \in {"extend", "fill", "reader"} /\ ExtendU(Ev.n) /\ Post)
        \/ (Ev.op = "z" /\ Zero(Ev.s, Ev.n) /\ Post)
        \/ (Ev.op = "drop" /\ DropFirst(Ev.n) /\ Post)
